@@ -155,6 +155,11 @@ def normalize(t: Any) -> Any:
             if x.op == "call":
                 name, bound = x.args
                 return T("call", (name, tuple(sorted(bound, key=lambda kv: str(kv[0])))))
+            if x.op == "method" and len(x.args) == 4 and x.args[0] == "to" and isinstance(x.args[3], tuple) and any(isinstance(kv, tuple) and len(kv) == 2 and kv[0] == "dtype" for kv in x.args[3]) and not x.args[2]:
+                # t.to(dtype=d) == t.to(d)
+                kd = dict(x.args[3])
+                rest = tuple(kv for kv in x.args[3] if kv[0] != "dtype")
+                return T("method", ("to", x.args[1], (kd["dtype"],), rest))
         if isinstance(x, sp.Basic):
             try:
                 return num(sp.simplify(x))
